@@ -6,7 +6,7 @@ BOUNDS = {
              'bidirectional wrapper for the algorithms that need it at LN in {0,2,4}; single-pass input + write-only output wrappers at LN in {0,3}, LM in {0,2}. '
              'Symbolic: every element (32 bit), searched / replaced values, predicate parameters (mask, pivot), generator seed/step, counts (copy_n, fill_n, generate_n <= LN incl. negative; search_n any int), '
              'shift amounts (any non-negative 64-bit value; negative for the documented no-op of shift_right), rotate / rotate_copy split point 0..LN, iter_swap positions',
-    'thorough': 'as quick with LN = 0..6, LM = 0..4 for pointers (merge/set_*: LN+LM <= 6, find_end: LN+LM <= 7, is_permutation / equal_range: LN <= 5); comparators and wrappers at LN in {0,1,3,5}, LM in {0,1,3}; '
+    'thorough': 'as quick with LN = 0..6, LM = 0..4 for pointers (merge/set_*: LN+LM <= 6, find_end: LN+LM <= 7, is_permutation / equal_range / search_n: LN <= 5); comparators and wrappers at LN in {0,1,3,5}, LM in {0,1,3}; '
                 'key-only comparator over bidirectional wrapper LN <= 4; struct element type (key, tag) with key-only operators over pointers (LN <= 5) and forward wrapper (LN <= 4)',
 }
 ASSUMPTIONS = [
@@ -79,6 +79,7 @@ def allowed(entry, n, m, tier):
     if entry in ('equal4_symlen', 'is_permutation4_symlen'): return m == n and n > 0   # second length symbolic in 0..LM: only LM == LN configurations
     if entry in ('is_permutation3', 'is_permutation4'): return n <= (4 if q else 5)
     if entry == 'equal_range': return n <= (4 if q else 5)
+    if entry == 'search_n': return n <= (4 if q else 5)
     return True
 
 def queries(tier, prop='C06'):
